@@ -62,5 +62,29 @@ def sphArcAngle (atan2 : K → K → K) (twoPi : K) (sinA cosA M : K) : K :=
   let left := if temp < 0 then temp else temp - twoPi
   if M < 0 then left else right
 
+/-- `Sphere::calcGeodesicAnalytical`: length of the arc from P to Q chosen by the tangent hints -/
+def sphPQLength (sqrt : K → K) (atan2 : K → K → K) (twoPi : K) (r : K) (P Q tP tQ : V3 K) : K :=
+  let e1 := V3.unit sqrt P
+  let eQ := V3.unit sqrt Q
+  let axis := V3.cross e1 eQ
+  let sinA := sqrt (V3.normSq axis)
+  let cosA := V3.dot e1 eQ
+  let e3 := V3.sdiv axis sinA
+  let MP := V3.dot (V3.cross e1 tP) e3
+  let MQ := V3.dot (V3.cross eQ tQ) e3
+  let angle := sphArcAngle atan2 twoPi sinA cosA ((MP + MQ) / 2)
+  absK (r * angle)
+
+/-- `Cylinder::calcGeodesicAnalytical`: length of the helix from P to Q chosen by the tangent hints -/
+def cylPQLength (sqrt : K → K) (atan2 : K → K → K) (twoPi : K) (R : K) (P Q tP tQ : V3 K) : K :=
+  let temp := atan2 Q.y Q.x - atan2 P.y P.x
+  let right := if temp < 0 then temp + twoPi else temp
+  let left := if temp < 0 then temp else temp - twoPi
+  let MP := P.x * tP.y - P.y * tP.x
+  let MQ := Q.x * tQ.y - Q.y * tQ.x
+  let angle := if (MP + MQ) / 2 < 0 then left else right
+  let m := (Q.z - P.z) / (angle * R)
+  R * sqrt (1 + m * m) * absK angle
+
 end Geo
 end Geom
